@@ -72,7 +72,16 @@ def gen(rng, tier):
         if sep and rng.chance(0.6):
             segs = [base] + [rng.pick(["a", "0", "2", "-1", "x1", rng.pick(INT_LITERALS)]) for _ in range(1 + rng.below(2))]
             key = sep.join(rng.shuffle(segs))
-        # keep list growth small enough to run: skip keys that legitimately create big lists
+        # keep list growth small enough to run: with a huge MaxIdx a key such as 65536 legitimately creates a list of that
+        # size (fields.append is quadratic): only small indices are generated in that configuration
+        if mi is not None and mi > 4096:
+            def big(seg):
+                try:
+                    return int(seg.replace("_", ""), 0) > 2048
+                except ValueError:
+                    return False
+            if any(big(seg) for seg in (key.split(sep) if sep else [key])):
+                continue
         val = rng.pick([I(-3), U(7), S("v"), B(True)])
         c = {"k": "key", "key": key, "val": val, "opts": opts, "_tag": "key/" + lit_class(base)}
         yield c
